@@ -2,7 +2,7 @@
 from __future__ import annotations
 
 import vf
-from circ_props import BUILD, run_histories, replay_case
+from circ_props import BUILD, run_histories, replay_case, fold_stress
 
 WANT = {'order'}
 
@@ -31,117 +31,23 @@ def run(ctx: vf.Ctx):
     ctx.build(**BUILD)
     ctx.rule = ('random editing histories (1..%d calls, width 1-6, radixes 2/3, gates of arity 1-3 incl. nested CircuitGates, '
                 'cycle indices in [-n-2, n+2], ~88%% valid arguments) on the real Circuit; after every call the grid is compared '
-                'with the extracted Coq model and the per-qudit timelines with the list-of-cycles reference; '
+                'with the extracted Coq model (fold included) and the per-qudit timelines with the list-of-cycles reference; plus a '
+                'fold-stress stream (dense 2-qudit circuits; surround / random / staggered / deliberately non-convex regions) judged by a '
+                'brute-force convexity test and timeline / unitary preservation; '
                 'non-trivial = history with at least one successful state-changing call; distinct by seed' % ctx.n(30, 40))
     ctx.assumptions += ['Python object aliasing is not modelled (C16)', 'TypeError paths are outside the generated stream',
-                        'fold/straighten/batch_unfold/copy/pickle are checked by the reference oracle only (no Coq model yet)']
+                        'batch_unfold/copy/pickle/get_region/surround are checked by the reference oracle only (no Coq model)',
+                        'fold is modelled (coq/circuit/CFold.v) and compared on every call; its timeline theorem is partial']
     ctx.trusted = ['Coq 8.16.1 kernel', 'ExtrOcamlBasic extraction + coq/extract/circuit_driver.ml',
                    'harness/circ_common.py (snapshot through the public read API, reference semantics)']
     run_histories(ctx, WANT, ctx.n(700, 25000), ctx.n(30, 40), classify)
-    fold_stress(ctx)
+    fold_stress(ctx, WANT, classify)
+    ctx.cov['calls_with_timeline_theorem'] = ['append', 'extend', 'append_circuit', 'insert', 'insert_circuit', 'pop', 'batch_pop',
+                                            'replace', 'replace_with_circuit', 'unfold', 'compress', 'append_qudit', 'insert_qudit',
+                                            'pop_qudit', 'renumber', 'clear', 'iadd', 'mul']
+    ctx.cov['calls_correspondence_only'] = ['batch_replace', 'unfold_all', 'add', 'imul', 'fold (partial lemmas)']
+    ctx.cov['calls_oracle_only'] = ['batch_unfold', 'copy', 'pickle']
     inverse_and_unitary(ctx)
-
-
-def fold_stress(ctx: vf.Ctx):
-    """Regions on circuits dense in 2-qudit gates: (a) grown by `surround` (valid), (b) random per-qudit cycle
-    intervals, (c) deliberately non-convex (two operations connected through a chain of >= 2 outside operations).
-    Oracles: is_valid_region / check_region agree with an independent brute-force convexity test; a fold that returns
-    leaves the recursively unfolded per-qudit timelines (and, for small widths, the unitary) unchanged; straighten
-    alone keeps every timeline; an invalid region makes fold raise ValueError and leave the circuit alone.
-    Every case is also run through the extracted model of fold / check_region (coq/circuit/CFold.v)."""
-    import numpy as np
-    import circ_common as cc
-    from bqskit.ir.region import CircuitRegion
-    rng = ctx.rng
-    n_reg = ctx.n(320, 6000)
-    two = [g for g, gt in cc.GATES.items() if gt.num_qudits == 2 and gt.radixes == (2, 2)]
-    one = [g for g, gt in cc.GATES.items() if gt.num_qudits == 1 and gt.radixes == (2,)]
-    lines, cases = [], []
-    for t in range(n_reg):
-        n = rng.randint(4, 6)
-        c = cc.Circuit(n)
-        for _ in range(rng.randint(8, 26)):
-            if rng.random() < 0.8:
-                g = rng.choice(two)
-                loc = tuple(rng.sample(range(n), 2))
-            else:
-                g = rng.choice(one)
-                loc = (rng.randrange(n),)
-            c.append(cc.op_from_snap((0, g, loc, cc.rand_params(rng, cc.GATES[g].num_params), tuple(cc.GATES[g].radixes), ())))
-        pre = cc.snap(c)
-        kind = rng.choice(['surround', 'random', 'nonconvex', 'nonconvex'])
-        region = None
-        if kind == 'surround':
-            call = cc.gen_fold(rng, c, cc.existing_points(c), True)
-            region = call[1] if call[0] == 'fold' else None
-        elif kind == 'nonconvex':
-            region = cc.nonconvex_region(rng, pre)
-        if region is None:
-            kind = 'random'
-            qs = rng.sample(range(n), rng.randint(2, 3))
-            reg = []
-            for q in qs:
-                a = rng.randint(0, c.num_cycles - 1)
-                reg.append((q, (a, rng.randint(a, min(c.num_cycles - 1, a + rng.randint(0, 5))))))
-            region = tuple(sorted(reg))
-        ctx.count('fold_stress:' + kind)
-        verdict = cc.region_verdict(pre, region)
-        ctx.count('fold_stress_verdict:' + verdict)
-        call = ('fold', region)
-        case = dict(kind='circuit-history', pre=pre, call=call)
-        ctx.case(('fold_stress', pre, region))
-        # (1) check_region's verdict
-        try:
-            accepted = c.is_valid_region(CircuitRegion({q: iv for q, iv in region}))
-        except Exception as e:
-            accepted = 'raised ' + type(e).__name__
-        if accepted != (verdict == 'ok'):
-            ctx.violation(dict(call='check_region', symptom='verdict'), case, f'brute-force convexity test: {verdict}',
-                          f'is_valid_region: {accepted}', 'check_region disagrees with the independent convexity test')
-        # (2) straighten keeps every timeline
-        d = c.copy()
-        try:
-            d.straighten(CircuitRegion({q: iv for q, iv in region}))
-            if cc.TL(cc.snap(d)) != cc.TL(pre):
-                ctx.violation(dict(call='straighten', symptom='order'), case, cc.TL(pre), cc.TL(cc.snap(d)), 'straighten changed a timeline')
-        except ValueError:
-            pass
-        except Exception as e:
-            ctx.violation(dict(call='straighten', symptom='internal-error'), case, 'ValueError or success', repr(e)[:200], 'straighten failed with an internal error')
-        # (3) fold
-        U = c.get_unitary() if n <= 5 else None
-        out = cc.apply_impl(c, call)
-        post = cc.snap(c)
-        if out.kind == 'E':
-            if out.val.startswith('Internal'):
-                ctx.violation(dict(call='fold', symptom='internal-error'), case, 'ValueError or success', out.val, 'fold failed with an internal error')
-            elif post != pre:
-                ctx.violation(dict(call='fold', symptom='error-changed-circuit'), case, pre, post, 'fold raised but changed the circuit')
-        else:
-            if verdict != 'ok':
-                sig, what = classify(dict(kind='fold_accepted_invalid_region', call=call, detail=verdict))
-                ctx.violation(sig, case, 'ValueError', post, what)
-            if cc.UTL(pre) != cc.UTL(post):
-                sig, what = classify(dict(kind='structure_only_changed_program', call=call))
-                ctx.violation(sig, case, cc.UTL(pre), cc.UTL(post), what)
-            elif U is not None and not np.allclose(c.get_unitary(), U, atol=1e-9):
-                ctx.violation(dict(call='fold', symptom='unitary-changed'), case, 'same unitary', 'different', 'fold changed the unitary')
-        lines += ['set ' + cc.fmt(pre), 'check_region ' + cc.fmt(region), 'set ' + cc.fmt(pre), 'fold ' + cc.fmt(region)]
-        cases.append((case, '1' if accepted is True else '0', f'{out} | {cc.fmt(post)}'))
-    got = vf.run_model('circuit', lines)
-    bad = 0
-    for j, (case, acc, impl) in enumerate(cases):
-        if got[4 * j + 1] != acc or got[4 * j + 3] != impl:
-            bad += 1
-            ctx.mismatch('coq/circuit/CFold.v vs Circuit.fold/check_region (fold_stress)', jsonable_case(case),
-                         (got[4 * j + 1] + ' ; ' + got[4 * j + 3])[:2000], (acc + ' ; ' + impl)[:2000])
-    ctx.cov['fold_stress_regions'] = len(cases)
-    ctx.cov['fold_stress_model_disagreements'] = bad
-
-
-def jsonable_case(x):
-    import json
-    return json.loads(json.dumps(x, default=str))
 
 
 def inverse_and_unitary(ctx: vf.Ctx):
